@@ -567,8 +567,12 @@ func (in *c15Inliner) simpleHelper(fn *types.Func, fd *ast.FuncDecl) bool {
 	ok := true
 	ast.Inspect(fd.Body, func(n ast.Node) bool {
 		switch t := n.(type) {
-		case *ast.DeferStmt, *ast.GoStmt, *ast.FuncLit, *ast.SelectStmt:
+		case *ast.DeferStmt, *ast.GoStmt, *ast.FuncLit:
 			ok = false
+		case *ast.SelectStmt:
+			// a select is copied as it is (an unlabelled break inside it leaves the select, before and after the copy;
+			// a return inside it becomes a labelled break, which may leave a select); a return inside a comm clause
+			// whose result is the received value needs the clause's variable, which the copy keeps
 		case *ast.BranchStmt:
 			if t.Tok == token.GOTO || t.Tok == token.FALLTHROUGH {
 				ok = false
